@@ -12,4 +12,11 @@ CHECKS = {
         "generates clip(salt_size) symbols of its declared alphabet for a symbolic integer salt_size.",
    note="Trusted: z3; the rng stub contract (uniform over the requested range); shadow int/bytes types. Outside: SystemRandom, "
         "float entropy formulas of passlib.pwd, wordsets."),
+ "C12": dict(engine="E1-zshadow", category="translation_validation", design_ref="DESIGN.md §4 C12",
+   technique="symbolic execution of the real codecs + z3 equivalence with an RFC 4648 reference model, per length",
+   text="For every length inside the bound and all byte/symbol contents, z3 shows the real Base64Engine encoders/decoders equal the "
+        "RFC 4648 regrouping (or its little-endian mirror) under the engine's alphabet, are mutually inverse, canonicalise only the "
+        "padding bits, and refuse foreign symbols/wrong lengths; integer codecs for all values of each width; b64s/ab64/b32 wrappers.",
+   note="Trusted: z3; reference models in refs/b64ref.py (validated against CPython base64 and published hash64 vectors on every run); "
+        "stdlib binascii/base64 replaced by those models. Outside: lengths above the bound (quick 48 / thorough 200 bytes)."),
 }
